@@ -60,6 +60,7 @@ Inductive event :=
 | EvIdle                                          (* executor drained *)
 | EvPoll (e : option nat)                         (* task of effect e polled *)
 | EvDiverge                                       (* more than 64 polls without reaching idle *)
+| EvOp                                            (* a new operation of the history starts *)
 | EvErr.                                          (* model left its well-formed domain *)
 
 (* ------------------------------------------------------------------ dynamic state *)
